@@ -176,8 +176,10 @@ class FaultHandlerOverrideTlv(AbstractTlvBase):
     @classmethod
     def unpack(cls, data: bytes) -> FaultHandlerOverrideTlv:
         fault_handler_ovr_tlv = cls.__empty()
-        fault_handler_ovr_tlv.tlv = CfdpTlv.unpack(data=data)
-        fault_handler_ovr_tlv.check_type(tlv_type=FaultHandlerOverrideTlv.TLV_TYPE)
+        tlv = CfdpTlv.unpack(data=data)
+        if tlv.tlv_type != cls.TLV_TYPE:
+            raise TlvTypeMissmatch(tlv.tlv_type, cls.TLV_TYPE)
+        fault_handler_ovr_tlv.tlv = tlv
         fault_handler_ovr_tlv.condition_code = (
             fault_handler_ovr_tlv.tlv.value[0] & 0xF0
         ) >> 4
@@ -533,8 +535,10 @@ class EntityIdTlv(AbstractTlvBase):
     @classmethod
     def unpack(cls, data: bytes) -> EntityIdTlv:
         entity_id_tlv = cls.__empty()
-        entity_id_tlv.tlv = CfdpTlv.unpack(data=data)
-        entity_id_tlv.check_type(tlv_type=TlvType.ENTITY_ID)
+        tlv = CfdpTlv.unpack(data=data)
+        if tlv.tlv_type != cls.TLV_TYPE:
+            raise TlvTypeMissmatch(tlv.tlv_type, cls.TLV_TYPE)
+        entity_id_tlv.tlv = tlv
         return entity_id_tlv
 
     @classmethod
